@@ -30,7 +30,7 @@ prop("C17",
                 "up to the stated length. Right level: the object is one u8 and loop-over-slice arithmetic, so the solver "
                 "covers the full 256x256 space the tests sample.",
      level_note="Trusted: Kani/CBMC translation of MIR, cadical/z3. Slices bounded to 10 bytes, programs to 5 operations.",
-     mir=None, jobs=12, timeout=300)
+     mir=True, jobs=12, timeout=300, fs_array=4096)
 
 K = "Kani 0.68 compiles the crate and the harness to a goto program; CBMC 6.11 unwinds it to the stated bound (unwinding assertions on) and the SAT/SMT back end decides every check for all symbolic values at once."
 TRUST = "Trusted: kani-compiler's MIR->goto translation, CBMC, cadical/z3; memory-safety instrumentation is off (the crate is 100% safe Rust); allocation never fails; hooks are pass-throughs."
